@@ -142,6 +142,13 @@ def gen_scn(rng, tf=True, fill=False, ha=False, life=False, size=60):
         s = gen.tf_seconds(tfv)
         step = max(1, s // rng.choice([1, 2, 3, 4, 5, 10, 20])) if (fill or rng.random() < 0.8) else None
     stream, meta = gen.gen_stream(rng, n, step=step)
+    if fill and tfv and n >= 4 and rng.random() < 0.06:
+        # ONE hole of more than a thousand buckets (a long outage): filled like any other
+        k = rng.randint(1, n - 1)
+        jump = gen.tf_seconds(tfv) * rng.randint(1001, 1400)
+        if gen.tf_seconds(tfv) * 1400 < 40 * 86400:   # keep the filled series affordable: only for fine timeframes
+            stream = stream[:k] + [((t[0] + jump),) + tuple(t[1:]) if t[0] is not None else t for t in stream[k:]]
+            meta["huge_gap"] = True
     tzoff = rng.choice([330, 345, 60, -300, 765, -210]) if (tfv and rng.random() < 0.1) else None
     if ha and rng.random() < 0.15:
         # the four Heikin-Ashi formulas are defined for ANY o/h/l/c: feeds whose close prints outside [low, high], or that give
